@@ -92,6 +92,9 @@ func covEnc(ps []pair, valid bool) (impl, fail string) {
 		}
 		return
 	}
+	if !valid {
+		return vlib.Str(vlib.L(vlib.Atom("ok"), vlib.Hex(enc), vlib.Int(encLen))), "a table that violates the coverage.Table invariant was written instead of refused"
+	}
 	impl = vlib.Str(vlib.L(vlib.Atom("ok"), vlib.Hex(enc), vlib.Int(encLen)))
 	if !valid {
 		return
@@ -306,16 +309,21 @@ func genCoverage(run *vlib.Run, r *vlib.Rand, tier string) {
 		}
 	}
 
-	// invalid tables (the encoder must refuse them loudly); tables with a
-	// duplicated index are left out of the model comparison because the
-	// result then depends on Go's map iteration order
+	// invalid tables (the encoder must refuse them loudly)
 	for k := 0; k < vlib.Count(tier, 150, 2000); k++ {
 		gl := glyphSet(r, 10)
 		if len(gl) < 2 {
 			continue
 		}
 		ps := validPairs(gl)
-		switch r.Intn(4) {
+		switch r.Intn(5) {
+		case 4: // one index used twice
+			a, b := r.Intn(len(ps)), r.Intn(len(ps))
+			if a == b {
+				continue
+			}
+			ps[a].i = ps[b].i
+			addEnc(ps, false, "cov:invalid-duplicate-index")
 		case 0: // swap two indices: a permutation that is not monotone
 			a, b := r.Intn(len(ps)), r.Intn(len(ps))
 			if a == b {
